@@ -695,6 +695,21 @@ func servedState(ctx context.Context, f filter.Interface, lst string, versions i
 
 				continue
 			}
+			if lst != lstSS {
+				// The lists also match subdomains.  A name that was never
+				// asked before cannot be answered from a result cache, so the
+				// content of the list itself is probed; it must agree with
+				// the (possibly cached) answer for the marker host.
+				nq++
+				probeSeq++
+				r2, err2 := f.FilterRequest(ctx, newReq(fmt.Sprintf("n%d.%s", probeSeq, host)))
+				if err2 != nil || (r == nil) != (r2 == nil) {
+					hits = append(hits, fmt.Sprintf("v%d-%s:cached(%t)-vs-fresh(%t,%v)", v, end, r != nil, r2 != nil, err2))
+					clean = false
+
+					continue
+				}
+			}
 			if r == nil {
 				continue
 			}
@@ -727,6 +742,9 @@ func servedState(ctx context.Context, f filter.Interface, lst string, versions i
 
 	return "corrupt:" + strings.Join(hits, "+"), nq
 }
+
+// probeSeq numbers the never-asked-before probe names of this process.
+var probeSeq uint64
 
 func isComplete(st string) (ok bool) { return strings.HasPrefix(st, "v") }
 
